@@ -124,6 +124,11 @@ func checkAndUpgradeValidatorsToYouV5(ctx *context) {
 
 	num := ctx.header.Number.Uint64()
 	parent := ctx.chain.GetHeader(ctx.header.ParentHash, num-1)
+	// While a side chain is being verified its blocks are not stored yet, so the parent of
+	// every block after the first is unknown to the chain reader.
+	if parent == nil {
+		return
+	}
 	if parent.CurrVersion == params.YouV4 {
 		logging.Info("update current validators to YouV5", "height", num)
 		// only do once on the first YouV5 block.
